@@ -35,7 +35,11 @@ func UnpackString(format, pack string, j int, budget uint64) (vals []rt.Value, n
 		budget: budget,
 	}
 	for u.hasNext() {
-		switch c := u.nextOption(); c {
+		c := u.nextOptionAfterX()
+		if u.err != nil {
+			return nil, 0, u.used, u.err
+		}
+		switch c {
 		case '<':
 			u.byteOrder = binary.LittleEndian
 		case '>':
@@ -130,7 +134,8 @@ func UnpackString(format, pack string, j int, budget uint64) (vals []rt.Value, n
 				u.readStr(int(u.intVal)) &&
 				u.add(rt.StringValue(u.strVal))
 		case 'x':
-			_ = u.skip(1)
+			_ = u.align(0) &&
+				u.skip(1)
 		case 'X':
 			if u.alignOnly {
 				u.err = errExpectedOption
